@@ -139,7 +139,7 @@ def run_notify_users(ctx):
         threads = ["upd"] + sorted(sc["waiters"]) + (["cancel"] if sc["cancel"] != "none" else [])
         for seq in vf.blind_schedules(ctx.rng, threads, nb, 12 + 8 * len(threads)):
             scripts.append({"id": len(scripts), "cfg": dict(sc, scen=si + 1), "steps": [{"act": "step", "d": t} for t in seq]})
-    cap = 3000 if quick else 40000
+    cap = 3000 if quick else 25000
     for kind, pkg, files, src, drv in (("lifecycle", "pkg/lifecycle", ["vf_lifecycle_verif_test.go"], "pkg/lifecycle/manager.go", "^TestVerifLifecycleSched$"),
                                        ("peercache", "pkg/tinder", ["vf_peercache_verif_test.go"], "pkg/tinder/peer_cache.go", "^TestVerifPeerCacheSched$")):
         mine = [s for s in scripts if s["cfg"]["kind"] == kind]
@@ -176,7 +176,7 @@ def run(ctx, replay=None):
         scripts = [json.load(open(replay))["script"]]
     else:
         scripts = gen(ctx)
-    cap = 8000 if ctx.tier == "quick" else 120000
+    cap = 8000 if ctx.tier == "quick" else 60000
     ctx.extra["behaviours_generated"] = len(scripts)
     if len(scripts) > cap:
         scripts = ctx.rng.sample(scripts, cap)
